@@ -374,6 +374,7 @@ class Decorator:
         self.r = rng
         self.n = 0
         self.stats = {}
+        self.stats_multi = {}
 
     def text(self, kind, style=None):
         """one comment; returns (source text, is_line_comment)"""
@@ -387,9 +388,60 @@ class Decorator:
             return "/* %s%s */" % (tag, words.replace("/*", "").replace("*/", "")), False
         return "%s %s%s" % (style, tag, words), True
 
+    # ------------------------------------------------------------------ patterns
+    # A pattern is what is written at ONE placeholder: a list of pieces (where, style)
+    #   where = "prev"  : at the end of the line of the previous token (before the placeholder's line)
+    #           "own"   : on a line of its own
+    #           "same"  : on the same line, between the two tokens (inline) / behind the token (trailing)
+    #           "blank" : an empty line (style ignored)
+    #   style = "/*" block, "/**" multi-line block, or a line marker ("#", "//", "##", ...); None = random
+    MULTI_LEADING = [
+        [("prev", "//"), ("own", "#")],
+        [("prev", "/*"), ("own", "/*"), ("own", "//")],
+        [("own", "#"), ("blank", None), ("own", "/*"), ("own", "//")],
+        [("blank", None), ("own", "//"), ("own", "#"), ("blank", None)],
+        [("prev", "#"), ("blank", None), ("own", "/**")],
+    ]
+    MULTI_INLINE = [
+        [("same", "/*"), ("same", "/*")],
+        [("same", "/*"), ("own", "/*"), ("same", "/*")],
+    ]
+    MULTI_TRAILING = [
+        [("same", "/*"), ("same", "//")],
+        [("same", "/*"), ("same", "/*"), ("own", "#")],
+        [("same", "#"), ("own", "/*"), ("own", "//")],
+    ]
+
+    def random_pattern(self, kind, multi, blank_lines, line_inline):
+        r = self.r
+        if kind == "leading":
+            pat = []
+            if multi and r.random() < 0.35:
+                pat.append(("prev", r.choice(["//", "#", "/*"])))
+            if blank_lines and r.random() < blank_lines:
+                pat.append(("blank", None))
+            n = 1 if not multi else r.choice([1, 2, 2, 3])
+            for j in range(n):
+                pat.append(("own", None))
+                if j < n - 1 and blank_lines and r.random() < blank_lines:
+                    pat.append(("blank", None))
+            if blank_lines and r.random() < blank_lines / 2:
+                pat.append(("blank", None))
+            return pat
+        if kind == "inline":
+            n = 1 if not multi else r.choice([1, 2, 2, 3])
+            return [(("own" if (j > 0 and r.random() < 0.3) else "same"), None if line_inline else "/*") for j in range(n)]
+        n = 1 if not multi else r.choice([1, 2, 2, 3])
+        pat = [("same", "/*") for _ in range(n - 1)] + [("same", None)]
+        if multi and r.random() < 0.3:
+            pat.append(("own", None))
+        return pat
+
     def decorate(self, src, toks, density=0.15, only=None, styles=None, specials=True, blank_lines=0.0, max_per_slot=2,
-                 line_inline=False, only_index=None):
+                 line_inline=False, only_index=None, multi=0.0, pattern=None):
         """src: str; toks: parse_fmtlex(..., with_pos=True) of src (comments allowed, they are skipped).
+        multi: probability that a chosen placeholder gets 2-3 comments in mixed styles / positions;
+        pattern: force this pattern at the chosen placeholder(s).
         Returns (new source, [(slot name, comment text)] in source order) or (None, reason)."""
         sig = [t for t in toks if t["k"] == "T"]
         try:
@@ -422,82 +474,69 @@ class Decorator:
                 ok = src[o:o + len(t["lit"])] == t["lit"]
             if not ok:
                 return None, "position of %s %r not verified" % (t["ty"], t["lit"])
-        # never splice inside a long string or right behind a token whose extent we do not know
-        inserts = []   # (offset, order, text)
+
+        def end_known(t):
+            # the extent of a token is known unless it belongs to a long string
+            return t["ty"] not in ("OPEN_LONG_STRING", "CLOSE_LONG_STRING") and not (
+                t["ty"] == "STRING" and src[off(t):off(t) + 1] != '"')
+
+        inserts = []        # (offset, order, text)
         twin_inserts = []
         self.inline_line = 0
+        self.multi_slots = 0
         placed = []
         order = 0
+
+        def comment(kind, style, first):
+            """-> (text, is line comment, twin text)"""
+            if specials and style is None and self.r.random() < 0.08 and kind != "inline":
+                c = self.r.choice(SPECIAL_LEADING if kind == "leading" else SPECIAL_TRAILING)
+                return c, True, c
+            st = style
+            if st is None and styles:
+                st = self.r.choice(styles)
+            if st == "/**":
+                self.n += 1
+                return "/* c%d\n   * second line \n */" % self.n, False, None
+            c, line = self.text("inline" if st == "/*" else kind, style=st)
+            return c, line, None
+
         for slot_no, (kind, idx, name) in enumerate(slots):
             if only is not None and name not in only:
                 continue
             if only_index is not None and slot_no != only_index:
                 continue
-            p = density
-            if self.r.random() >= p:
+            chosen = self.r.random() < density
+            if not chosen:
                 if kind == "leading" and blank_lines and self.r.random() < blank_lines and idx < len(sig):
                     inserts.append((self._line_start(src, off(sig[idx])), order, "\n" * self.r.choice([1, 1, 2, 3])))
                     twin_inserts.append(inserts[-1])
                     order += 1
                 continue
-            k = 1 if self.r.random() < 0.75 else self.r.randint(2, max_per_slot) if max_per_slot >= 2 else 1
-            if kind == "trailing":
+            is_multi = pattern is not None or self.r.random() < multi
+            pat = pattern if pattern is not None else self.random_pattern(kind, is_multi, blank_lines, line_inline)
+            if kind in ("leading", "inline") and idx >= len(sig):
+                continue
+            if kind == "inline":
                 t = sig[idx]
-                if t["ty"] == "CLOSE_LONG_STRING":
-                    continue
-                o = off(t) + tok_len(t)
-                rest = src[o:src.find("\n", o) if src.find("\n", o) >= 0 else len(src)]
-                txts = []
-                for j in range(k):
-                    if specials and j == 0 and self.r.random() < 0.08:
-                        c, line = self.r.choice(SPECIAL_TRAILING), True
-                    else:
-                        # only the last comment on a line may be a line comment
-                        c, line = self.text(kind, style=(styles and self.r.choice(styles)) or (None if j == k - 1 else "/*"))
-                        if line and j != k - 1:
-                            c, line = self.text(kind, style="/*")
-                    txts.append(c)
-                    placed.append((name, c))
-                ins = " " + " ".join(txts)
-                if rest.strip() != "":
-                    ins += "\n"
-                inserts.append((o, order, ins))
-            elif kind == "leading":
-                if idx >= len(sig):
-                    continue
-                o = off(sig[idx])
-                ls = self._line_start(src, o)
-                indent = src[ls:o] if src[ls:o].strip() == "" else None
-                txts = []
-                for j in range(k):
-                    if specials and self.r.random() < 0.08:
-                        c = self.r.choice(SPECIAL_LEADING)
-                    else:
-                        c, _ = self.text(kind, style=styles and self.r.choice(styles))
-                    txts.append(c)
-                    placed.append((name, c))
-                if indent is not None:
-                    ins = "".join(c + "\n" + indent for c in txts)
-                else:
-                    ins = "\n" + "".join(c + "\n" for c in txts)
-                inserts.append((o, order, ins))
-            else:  # inline
-                if idx >= len(sig):
-                    continue
-                t = sig[idx]
-                if t["ty"] in ("CLOSE_LONG_STRING",) or (t["ty"] == "STRING" and idx > 0 and sig[idx - 1]["ty"] == "OPEN_LONG_STRING"):
+                if t["ty"] == "CLOSE_LONG_STRING" or (t["ty"] == "STRING" and idx > 0 and sig[idx - 1]["ty"] == "OPEN_LONG_STRING"):
                     continue
                 o = off(t)
-                ins = " "
-                twin = " "
-                for j in range(k):
-                    # a line comment (# or //) between two tokens of one statement is printed by the formatter
-                    # in the middle of the line (known finding); it is generated only when asked for, and the
-                    # "twin" text carries the same comment in block style at the same place
-                    c, line = self.text(kind, style=(styles and self.r.choice(styles)) or (None if line_inline else "/*"))
+                ins, twin = " ", " "
+                ncom = 0
+                for where, style in pat:
+                    if where == "blank":
+                        continue
+                    c, line, _ = comment(kind, style, ncom == 0)
+                    if where == "own" and ncom > 0:
+                        ins = ins.rstrip(" ") + "\n  "
+                        twin = twin.rstrip(" ") + "\n  "
                     placed.append((name, c))
+                    ncom += 1
                     ins += c + ("\n" if line else " ")
                     if line:
+                        # a line comment between two tokens of one statement is the recorded finding: the twin
+                        # text carries the same comment in block style at the same place
                         self.inline_line += 1
                         body = c.lstrip("#/").replace("/*", "").replace("*/", "")
                         twin += "/*%s */ " % body
@@ -505,10 +544,75 @@ class Decorator:
                         twin += c + " "
                 inserts.append((o, order, ins))
                 twin_inserts.append((o, order, twin))
-                order += 1
-                self.stats[name] = self.stats.get(name, 0) + 1
-                continue
-            twin_inserts.append(inserts[-1])
+            elif kind == "trailing":
+                t = sig[idx]
+                if not end_known(t):
+                    continue
+                o = off(t) + tok_len(t)
+                nl = src.find("\n", o)
+                rest = src[o:nl if nl >= 0 else len(src)]
+                same = [(w, st) for w, st in pat if w == "same"]
+                own = [(w, st) for w, st in pat if w == "own"]
+                txt = ""
+                ended = False
+                for j, (w, st) in enumerate(same):
+                    if j < len(same) - 1 and st is None:
+                        st = "/*"          # only the last comment on a line may be a line comment
+                    c, line, _ = comment(kind, st, j == 0)
+                    if line and j < len(same) - 1:
+                        c, line, _ = comment(kind, "/*", False)
+                    placed.append((name, c))
+                    txt += " " + c
+                    ended = line
+                need_nl = rest.strip() != "" or own
+                if need_nl:
+                    txt += "\n"
+                for w, st in own:
+                    c, line, _ = comment("leading", st, False)
+                    placed.append((name + "+own", c))
+                    txt += c + "\n"
+                if own and rest.strip() == "":
+                    txt = txt[:-1]          # the line feed that was there ends the last own-line comment
+                inserts.append((o, order, txt))
+                twin_inserts.append(inserts[-1])
+            else:  # leading
+                o = off(sig[idx])
+                ls = self._line_start(src, o)
+                indent = src[ls:o] if src[ls:o].strip() == "" else None
+                L = []
+                ncom = 0
+                for where, style in pat:
+                    if where == "blank":
+                        L.append("")
+                    elif where == "own":
+                        c, line, _ = comment(kind, style, ncom == 0)
+                        placed.append((name, c))
+                        ncom += 1
+                        L.append(c)
+                    elif where == "prev" and idx > 0 and end_known(sig[idx - 1]):
+                        # behind the previous token, on its line
+                        pt = sig[idx - 1]
+                        po = off(pt) + tok_len(pt)
+                        between = src[po:o]
+                        c, line, _ = comment("trailing", style, True)
+                        placed.append((name + "+prevline", c))
+                        ptxt = " " + c
+                        if "\n" not in between:
+                            ptxt += "\n"       # the two tokens were on one line
+                        inserts.append((po, order, ptxt))
+                        twin_inserts.append(inserts[-1])
+                        order += 1
+                if not L:
+                    ins = ""
+                elif indent is not None:
+                    ins = ("\n" + indent).join(L) + "\n" + indent
+                else:
+                    ins = "\n" + "\n".join(L) + "\n"
+                inserts.append((o, order, ins))
+                twin_inserts.append(inserts[-1])
+            if is_multi:
+                self.multi_slots += 1
+                self.stats_multi[name] = self.stats_multi.get(name, 0) + 1
             order += 1
             self.stats[name] = self.stats.get(name, 0) + 1
         out = src
@@ -611,4 +715,22 @@ def one_comment_per_slot(rng, toks):
             if text is None or not placed:
                 continue
             out.append((name, kind, style, text, d.twin))
+    return out
+
+
+def several_comments_per_slot(rng, toks):
+    """-> [(slot name, kind, pattern label, text, twin)]: TEMPLATE with 2-3 comments in mixed styles and positions
+    (line of the previous token / own line / same line, empty lines between) at ONE slot; every slot x every
+    pattern of its kind"""
+    sig = [(t["ty"], t["lit"]) for t in toks if t["k"] == "T"]
+    slots = find_slots(sig)
+    out = []
+    pats = {"leading": Decorator.MULTI_LEADING, "inline": Decorator.MULTI_INLINE, "trailing": Decorator.MULTI_TRAILING}
+    for i, (kind, idx, name) in enumerate(slots):
+        for pn, pat in enumerate(pats[kind]):
+            d = Decorator(rng)
+            text, placed = d.decorate(TEMPLATE, toks, density=1.1, specials=False, only_index=i, pattern=pat)
+            if text is None or len(placed) < 2:
+                continue
+            out.append((name, kind, "%s%d" % (kind[0], pn), text, d.twin))
     return out
